@@ -65,6 +65,20 @@ var specs = map[string]*propSpec{
 			{Name: "history", Flavour: "plain", Quick: 60000, Thorough: 3000000, PerProc: 2000, Progress: true, TimeoutS: 600},
 		},
 	},
+	"C05": {
+		ID:   "C05",
+		Rule: "one run = one input (fragment such as a literal prefix / open string / dangling escape / lone surrogate / number tail, valid document, truncation, length pinned to 15..129 around the SIMD block sizes, string payload) x one of 23 parsing, scanning, quoting, validating entry points, evaluated in three placements chosen by the simulator: heap copy, arena with an unmapped PROT_NONE page immediately after the last input byte, arena with 1-48 bytes of a plausible continuation (rue / ull / quote / digits / closers / high bytes ...) after it; the three results (value, error text, position) must be identical and the process must survive; non-trivial = non-empty input; distinct = distinct trace hash (entry point x input)",
+		Assume: []string{
+			"no schedule is involved: the simulated component is memory placement (DESIGN 3, C05 caveat)",
+			"a touched guard page kills the worker; the run is attributed through a context record written before every call",
+			"amd64 native routines only (the arm64 copies cannot run here); the SSE variants are covered by the noavx2 batch",
+		},
+		Batches: []batch{
+			{Name: "avx2", Flavour: "plain", Quick: 400000, Thorough: 20000000, PerProc: 20000, Progress: true, TimeoutS: 600},
+			{Name: "sse", Flavour: "plain", Env: []string{"SONIC_MODE=noavx2"}, Quick: 200000, Thorough: 10000000, PerProc: 20000, Progress: true, TimeoutS: 600},
+			{Name: "optdec", Flavour: "plain", Env: []string{"SONIC_USE_OPTDEC=1"}, Quick: 100000, Thorough: 5000000, PerProc: 20000, Progress: true, TimeoutS: 600},
+		},
+	},
 	"C08": {
 		ID:   "C08",
 		Rule: "one run = 1-4 fresh dynamic types (reflect.StructOf etc., never seen by the process: first-use compilation happens inside the run) + callback types that yield mid-encode/mid-decode, 2-6 clients x 1-6 API calls (Marshal, MarshalString, MarshalIndent, EncodeInto, Unmarshal, UnmarshalString, Valid, Get, Pretouch with compile options), several clients sharing one type, program-cache capacity 2..4096 and pool hit/miss/steal decisions from the tape, injected callback panics in a quarter of the runs; non-trivial = more context switches than clients; distinct = distinct trace hash",
